@@ -2,7 +2,7 @@
 # Confirm a seeded change in its scratch worktree: (i) clean tree + demo => demo passes, (ii) change applied =>
 # the original suite passes and the demo fails.   tools/confirm_seeded.sh /tmp/mut-Cxx A|B
 set -u
-WT="$1"; V="$2"; v=$(echo "$V" | tr 'ABCD' 'abcd')
+WT="$1"; V="$2"; v=$(echo "$V" | tr 'ABCDEF' 'abcdef')
 cd "$WT" || exit 2
 git checkout -- rust/src >/dev/null 2>&1
 # register the demo
